@@ -97,6 +97,15 @@ int main(int argc, char** argv) {
     rec[t] = hazard_pointer_thread_record_create_and_push(&hp_head, MPMC_HAZARD_COUNT);
     for (int k = 0; k < MPMC_HAZARD_COUNT; k++) vr_reg(&rec[t]->hazard_pointers[k], 8, "hp%d_%d", t, k);
   }
+  /* the dummy node handed to init is, in the library's own use (fiber_semaphore_init takes it
+   * from the manager's node pool), a RECYCLED node: it still carries the links and value of
+   * its previous life.  init must not rely on it being clean. */
+  pool[0].prev = &pool[1];
+  pool[0].next = &pool[1];
+  pool[0].value = (void*)77;
+  pool[1].value = (void*)78;
+  __asm__ __volatile__("" : : "r"(pool) : "memory");
+  VH_DIRTY(fifo);
   mpmc_fifo_init(&fifo, &pool[0]);
   for (int i = npool - 1; i >= 1; i--) {
     poison(&pool[i]);
